@@ -56,6 +56,11 @@ func FeedLog(ctx context.Context, l config.Log, w feeder.Witness, c *http.Client
 		if from.Size == 0 {
 			return [][]byte{}, nil
 		}
+		// tlog's tree arithmetic is only defined for sizes that leave headroom in an int64:
+		// above 2^62 it never terminates, and sizes from 2^63 wrap to negative numbers.
+		if to.Size >= 1<<62 {
+			return nil, fmt.Errorf("checkpoint size %d is out of range", to.Size)
+		}
 		var h [32]byte
 		copy(h[:], to.Hash)
 		tree := tlog.Tree{
